@@ -2482,10 +2482,10 @@ class TagCollection(list):
         for tag in self:
             if tag.id == _id:
                 return tag
-            for subtag in tag.children:
-                tmp = subtag.getElementById(_id)
-                if tmp is not None:
-                    return tmp
+            # Search all levels below this tag ( getElementById on a tag covers its children on down )
+            tmp = tag.getElementById(_id)
+            if tmp is not None:
+                return tmp
         return None
 
     def getElementsByAttr(self, attr, value):
